@@ -36,8 +36,8 @@ def write_cfg(ctx, name, consts, lines):
     return name + ".cfg"
 
 
-def mc_cfg(ctx, name, dev, alpha, maxlen, tag, view, invariants, validators="TRUE"):
-    c = {"Validators": validators}
+def mc_cfg(ctx, name, dev, alpha, maxlen, tag, view, invariants, validators="TRUE", tracktok="TRUE"):
+    c = {"Validators": validators, "TrackTok": tracktok}
     c.update(dev)
     c.update({"AlphaName": '"%s"' % alpha, "MaxLen": str(maxlen), "EmitTag": '"%s"' % tag})
     lines = ["INIT Init", "NEXT Next"] + (["VIEW StView"] if view else []) + ["INVARIANT %s" % i for i in invariants] + ["CHECK_DEADLOCK FALSE"]
@@ -95,10 +95,18 @@ def generate(ctx, thorough):
     tour = []
     for h in wits:
         pre = [abc[i - 1] for i in h]
-        cont = allmsgs if thorough else rng.sample(allmsgs, min(len(allmsgs), 110))
+        # quick: every message of the C11 alphabet plus a seeded sample of the universe
+        cont = allmsgs if thorough else abc + [m for m in rng.sample(allmsgs, min(len(allmsgs), 80)) if m not in abc]
         for m in cont:
             tour.append(pre + [m])
     fams["tour"] = tour
+    # F2b: the client reconnects and presents the token it was last given: every TLC-generated sequence of <= 2 messages,
+    # continued by {conn}{login token=prev} (in the model a fresh connection after the handshake equals the old one before
+    # login, so the witness tour alone would not send the token over a NEW connection)
+    conn = [m for m in abc if m["k"] == "conn"]
+    prev = [m for m in abc if m.get("sec") == "prev"]
+    if conn and prev:
+        fams["reconn"] = [[abc[i - 1] for i in h] + [conn[0], prev[0]] for h in seqs if len(h) <= 2]
     # F3 (thorough): random walks of 8 messages over the thorough alphabet
     r3 = None
     if thorough:
@@ -123,12 +131,16 @@ def run(ctx):
 
     def design_check():
         try:
-            # whole reachable state space, every abstract message in every state = sequences of every length
-            u1["r0"] = ctx.tlc_must_pass("Session_MC", mc_cfg(ctx, "SessU1", DEV_INTENDED, "all", 1000, "", True, ["NoViolation", "TypeOK"]),
-                                         timeout=900, workers=max(4, vlib.NCPU // 2))
+            # whole reachable state space, every abstract message in every state = sequences of every length.
+            # (the whole universe incl. {login token=prev}/{conn}, with the handed-out token tracked; and the C11 alphabet alone)
+            nw = max(4, vlib.NCPU // 2)
+            u1["r0"] = ctx.tlc_must_pass("Session_MC", mc_cfg(ctx, "SessU1", DEV_INTENDED, "all", 1000, "", True, ["NoViolation", "TypeOK"],
+                                                           tracktok="TRUE"), timeout=1500, workers=nw)
+            u1["r0a"] = ctx.tlc_must_pass("Session_MC", mc_cfg(ctx, "SessU1a", DEV_INTENDED, "t" if thorough else "q", 1000, "", True,
+                                                            ["NoViolation", "TypeOK"]), timeout=900, workers=nw)
             # every sequence of <= 3 (4) messages over the C11 alphabet as a distinct state
             u1["r0b"] = ctx.tlc_must_pass("Session_MC", mc_cfg(ctx, "SessU1b", DEV_INTENDED, "t" if thorough else "q", 4 if thorough else 3, "", False,
-                                                            ["NoViolation", "TypeOK"]), timeout=900, workers=max(4, vlib.NCPU // 2))
+                                                            ["NoViolation", "TypeOK"]), timeout=1500, workers=nw)
         except BaseException as e:  # re-raised in the main thread
             u1["err"] = e
     th = threading.Thread(target=design_check)
@@ -166,7 +178,7 @@ def record_and_judge(ctx, thorough, th, u1):
     vlib.log("recorded %d sequences in %.1fs (%d child process deaths)" % (len(vectors), wall, deaths))
 
     # ---- verdict by TLC
-    c = {"Validators": "TRUE"}
+    c = {"Validators": "TRUE", "TrackTok": "TRUE"}
     c.update(dev_built())
     write_cfg(ctx, "Monitor_C11", c, ["INIT Init", "NEXT Next", "CHECK_DEADLOCK FALSE"])
     r2, fails, divs = vlib.run_vector_monitor(ctx, "Monitor_C11", "c11_vectors.ndjson", timeout=2400)
@@ -197,17 +209,33 @@ def record_and_judge(ctx, thorough, th, u1):
     th.join()
     if "err" in u1:
         raise u1["err"]
-    r0, r0b = u1["r0"], u1["r0b"]
+    r0, r0b, r0a = u1["r0"], u1["r0b"], u1["r0a"]
+    vlib.log("U1 Session (as intended, C11 alphabet incl. login-with-previous-token and reconnect, every reachable state): %d transitions, %d states, %.1fs" % (
+        r0a.generated, r0a.distinct, r0a.wall))
     vlib.log("U1 Session (as intended, all %d messages in every reachable state): %d transitions, %d states, %.1fs" % (gstat["universe"], r0.generated, r0.distinct, r0.wall))
     vlib.log("U1 Session (every sequence of <= %d messages over the C11 alphabet): %d states, %.1fs" % (4 if thorough else 3, r0b.distinct, r0b.wall))
+    # the history class "login with the token the previous reply handed out": what it was answered, by issuing reply
+    prevstat = collections.Counter()
+    for v in vectors:
+        last, conn = None, False
+        for st in v["steps"]:
+            if st["m"]["k"] == "conn":
+                conn = True
+            if st["m"].get("sec") == "prev":
+                prevstat["token from %s%s -> %s uid=%s" % (("{ctrl %d} to %s/%s" % last) if last else "nobody", ", new connection" if conn else "",
+                                                          [f["code"] for f in st["fr"]], st["uid"] or "-")] += 1
+            if st.get("tk", {}).get("has"):
+                last, conn = (st["tk"]["code"], st["tk"]["user"], st["tk"]["lvl"]), False
+    for k, n in sorted(prevstat.items()):
+        vlib.log("  login with previous token: %-70s x%d" % (k, n))
     steps = sum(len(v["steps"]) for v in vectors)
     kinds = collections.Counter(s["m"]["k"] for v in vectors for s in v["steps"])
     loggedin = sum(1 for v in vectors for s in v["steps"] if s["uid"])
     delivered = sum(len(s["rd"]) for v in vectors for s in v["steps"])
     distinct = len({json.dumps([s["m"] for s in v["steps"]], sort_keys=True) for v in vectors})
     ctx.cov.update({
-        "states": r0.distinct + r0b.distinct + gstat["gen_states"] + r2.distinct,
-        "transitions": r0.generated + r0b.generated + gstat["gen_transitions"] + r2.generated,
+        "states": r0.distinct + r0a.distinct + r0b.distinct + gstat["gen_states"] + r2.distinct,
+        "transitions": r0.generated + r0a.generated + r0b.generated + gstat["gen_transitions"] + r2.generated,
         "traces_validated_against_impl": len(vectors), "evaluations": steps + len(vectors),
         "distinct_nontrivial": distinct,
         "rule": "every sequence of <=3 abstract messages over the %d-message C11 alphabet from a fresh connection; one shortest witness per reachable model state (%d) continued by %s of the %d-message universe%s; non-trivial = distinct message sequences" % (
@@ -216,7 +244,7 @@ def record_and_judge(ctx, thorough, th, u1):
         "exhaustive": True,
         "model": {"module": "Session", "u1_transitions": r0.generated, "u1_states": r0.distinct, "u1_bounded_states": r0b.distinct},
         "families": {k: len(v) for k, v in fams.items()}, "steps": steps, "steps_by_kind": dict(kinds), "steps_in_authenticated_state": loggedin,
-        "data_frames_delivered_to_reader": delivered, "child_process_deaths": deaths,
+        "data_frames_delivered_to_reader": delivered, "login_with_previous_token": dict(prevstat), "child_process_deaths": deaths,
         "monitor_run": {"module": "Monitor_C11", "vectors": len(vectors)},
     })
     ctx.assumptions += [
